@@ -110,7 +110,7 @@ Proof.
   destruct (assign_upd_ok _ lx ly cx cy Hrx Hry D) as (h' & l' & E & UO).
   exists lx, ly, cx, cy, h', l'. do 4 (split; [assumption|]). split; [|exact UO].
   assert (Exy : Z.eqb x y = false) by (now apply Z.eqb_neq).
-  destruct Hs as [-> | ->]; unfold f_exec, f_declared, has; rewrite Hloc, Hx; cbn [assoc orb];
+  destruct Hs as [-> | ->]; unfold f_exec, desugar, f_exec1, f_declared, has; rewrite Hloc, Hx; cbn [assoc orb];
     rewrite Hlkx, Hlky, ?Exy, E; reflexivity.
 Qed.
 
@@ -156,7 +156,7 @@ Proof.
       unfold p_bind in P. rewrite Pl in P. unfold has in P. simpl in P. rewrite Px in P.
       rewrite set_assoc_same in P by auto. injection P as <- <-.
       assert (E : f_exec in_loop st (LAssignVar x x) = Safe (st, [])).
-      { unfold f_exec, f_declared. rewrite Hloc. unfold has. simpl. rewrite Fx, Hlk, Z.eqb_refl. simpl.
+      { unfold f_exec, desugar, f_exec1, f_declared. rewrite Hloc. unfold has. simpl. rewrite Fx, Hlk, Z.eqb_refl. simpl.
         now rewrite store_same by auto. }
       exists st. split; [exact E|]. split; [exact HI|]. split; [|reflexivity].
       destruct pst as [ob gl lo]. simpl in *. now subst lo.
@@ -167,7 +167,7 @@ Proof.
     destruct (p_ref pst x) as [o|] eqn:R; simpl in P; try discriminate. injection P as <- <-.
     destruct (sim2_var fz pst st x o HI HS R) as (Px & Ho & l & Fx & Hlk & Hr).
     destruct (append_ok _ l _ v Hr) as (h' & l' & E & UO).
-    assert (E' : f_exec in_loop st (LAppend x v) = Safe (f_store st h' x l', [])) by (unfold f_exec; now rewrite Hlk, E).
+    assert (E' : f_exec in_loop st (LAppend x v) = Safe (f_store st h' x l', [])) by (unfold f_exec, desugar, f_exec1; now rewrite Hlk, E).
     destruct (INV _ E' I) as [HI' N]. eexists. split; [exact E'|]. split; [exact HI'|]. split; [|exact N].
     eapply sim2_store; eauto.
   - (* LRemove *)
@@ -176,7 +176,7 @@ Proof.
     destruct (sim2_var fz pst st x o HI HS R) as (Px & Ho & l & Fx & Hlk & Hr).
     destruct (remove_ok _ l _ v Hr) as (h' & l' & E & UO).
     destruct (remove_first v (p_obj pst o)) as [cs'|] eqn:RF; try discriminate. injection P as <- <-.
-    assert (E' : f_exec in_loop st (LRemove x v) = Safe (f_store st h' x l', [])) by (unfold f_exec; now rewrite Hlk, E).
+    assert (E' : f_exec in_loop st (LRemove x v) = Safe (f_store st h' x l', [])) by (unfold f_exec, desugar, f_exec1; now rewrite Hlk, E).
     destruct (INV _ E' I) as [HI' N]. eexists. split; [exact E'|]. split; [exact HI'|]. split; [|exact N].
     eapply sim2_store; eauto.
   - (* LGet *)
@@ -184,7 +184,7 @@ Proof.
     destruct (sim2_var fz pst st x o HI HS R) as (Px & Ho & l & Fx & Hlk & Hr).
     destruct (py_index (length (p_obj pst o)) i) as [k|] eqn:PI; try discriminate. injection P as <- <-.
     assert (E' : f_exec in_loop st (LGet x i) = Safe (st, [nth k (p_obj pst o) 0%Z])).
-    { unfold f_exec. rewrite Hlk, (get_spec _ l _ i Hr), PI. reflexivity. }
+    { unfold f_exec, desugar, f_exec1. rewrite Hlk, (get_spec _ l _ i Hr), PI. reflexivity. }
     exists st. split; [exact E'|]. split; [exact HI|]. split; [exact HS|reflexivity].
   - (* LSet *)
     apply andb_true_iff in U. destruct U as [Ux Uf]. apply negb_true_iff in Uf.
@@ -193,7 +193,7 @@ Proof.
     destruct (py_index (length (p_obj pst o)) i) as [k|] eqn:PI; try discriminate. injection P as <- <-.
     destruct (set_ok _ l _ i v k Hr PI) as (h' & E & UO).
     assert (E' : f_exec in_loop st (LSet x i v) = Safe (mkf h' (f_glob st) (f_loc st), [])).
-    { unfold f_exec. now rewrite Hlk, E. }
+    { unfold f_exec, desugar, f_exec1. now rewrite Hlk, E. }
     destruct (INV _ E' I) as [HI' N]. eexists. split; [exact E'|]. split; [exact HI'|]. split; [|exact N].
     pose proof (sim2_store fz pst st x o l h' l _ HI HS Uf Px Fx UO) as S'.
     unfold f_store in S'. rewrite Hloc in S'. simpl in S'. rewrite set_assoc_same in S' by auto.
@@ -203,7 +203,7 @@ Proof.
     destruct (sim2_var fz pst st x o HI HS R) as (Px & Ho & l & Fx & Hlk & Hr).
     destruct (py_index (length (p_obj pst o)) i) as [k|] eqn:PI; try discriminate. injection P as <- <-.
     assert (E' : f_exec in_loop st (LCallGet x i) = Safe (st, [nth k (p_obj pst o) 0%Z])).
-    { unfold f_exec. rewrite Hlk, (get_spec _ l _ i Hr), PI. reflexivity. }
+    { unfold f_exec, desugar, f_exec1. rewrite Hlk, (get_spec _ l _ i Hr), PI. reflexivity. }
     exists st. split; [exact E'|]. split; [exact HI|]. split; [exact HS|reflexivity].
   - (* LAppendRef *)
     apply andb_true_iff in U. destruct U as [U Uy]. apply andb_true_iff in U. destruct U as [Ux Uf].
@@ -215,7 +215,7 @@ Proof.
     destruct (py_index (length (p_obj pst oy)) i) as [k|] eqn:PI; try discriminate. injection P as <- <-.
     pose proof (append_ref_ok _ l _ s _ i Hr Hrs) as A. rewrite PI in A. destruct A as (h' & l' & E & UO).
     assert (E' : f_exec in_loop st (LAppendRef x y i) = Safe (f_store st h' x l', [])).
-    { unfold f_exec. now rewrite Hlk, Hlky, E. }
+    { unfold f_exec, desugar, f_exec1. now rewrite Hlk, Hlky, E. }
     destruct (INV _ E' I) as [HI' N]. eexists. split; [exact E'|]. split; [exact HI'|]. split; [|exact N].
     eapply sim2_store; eauto.
   - (* LRemoveRef *)
@@ -231,7 +231,7 @@ Proof.
     destruct (remove_ref_ok _ l _ s _ i Hr Hrs) as [(h' & l' & cs'' & E & UO & Hcs)|(E & Hn)]; [|congruence].
     specialize (Hcs k PI). rewrite RF in Hcs. subst cs''.
     assert (E' : f_exec in_loop st (LRemoveRef x y i) = Safe (f_store st h' x l', [])).
-    { unfold f_exec. now rewrite Hlk, Hlky, E. }
+    { unfold f_exec, desugar, f_exec1. now rewrite Hlk, Hlky, E. }
     destruct (INV _ E' I) as [HI' N]. eexists. split; [exact E'|]. split; [exact HI'|]. split; [|exact N].
     eapply sim2_store; eauto.
   - (* LAssignRet *)
@@ -327,12 +327,12 @@ Proof.
     + (* LDeclLit *)
       cbn [p_exec] in E1. injection E1 as E1a E1b.
       destruct (make_ok (f_heap st) items) as (h' & l' & E & F).
-      unfold f_exec. rewrite E. cbn [rbind]. eapply G; eauto.
+      unfold f_exec, desugar, f_exec1. rewrite E. cbn [rbind]. eapply G; eauto.
     + (* LDeclComp *)
       cbn [p_exec] in E1. destruct (c_step c =? 0)%Z eqn:Ez; try discriminate. injection E1 as E1a E1b.
       destruct (comp_ok (f_heap st) c) as (h' & l' & E & F).
       unfold comp_vals in F. rewrite Ez in F.
-      unfold f_exec. rewrite E. cbn [rbind]. eapply G; eauto.
+      unfold f_exec, desugar, f_exec1. rewrite E. cbn [rbind]. eapply G; eauto.
 Qed.
 
 Lemma pass_sim2 : forall fz body st pst pst' o,
